@@ -93,6 +93,8 @@ pub const NUMBERS: &[u32] = &[0, 1, 9, 10, 40, 41, 42, 47, 50, 60, 61, 62, 99, 1
 pub const NUMBER_LIKE: &[&str] = &["0", "00", "060", "007", "+1024", "+0", "-0", "-1", "1e3", "0x10", " 1", "1 ", "4294967295", "4294967296", "04294967295", "65536", "065535", "١٢", "1_000", "1.0", "true", "false", "null", "NaN", "40", "40 ", "0b1"];
 /// multi-character sequences with a meaning in neighbouring grammars (header folding, percent and
 /// MIME encodings, escapes of escapes), for insertion into otherwise random text
+/// RFC 8187 extended values, as they appear under keys ending in '*'
+pub const EXT_VALUES: &[&str] = &["UTF-8'en'%C2%A3%20rates", "utf-8''Thermometer", "utf-8'en'\u{a3} rates", "iso-8859-1'de'%E4", "UTF-8'", "utf-8''"];
 pub const DICTIONARY: &[&str] = &["\r\n ", "\r\n\t", "\r\n", "\n\r", "\n ", "\\\"", "\\\\", "\"\"", "%22", "%5C", "=?UTF-8?Q?a?=", "\\\r\n ", "\u{0}", "&quot;", "\\u0022", "\\x22", "\\,", "\\;", "*=UTF-8''a"];
 pub const VALUE_ALPHABET: &[char] = &['"', '\\', ',', ';', '<', '>', '=', ' ', '\n', '\r', 'a', '0', 'é', '😁'];
 
@@ -429,6 +431,13 @@ pub fn run_c16(ctx: &mut Ctx) {
         }
     }
     {
+        for key in ["title*", "rt*"] {
+            for v in EXT_VALUES {
+                let doc = vec![Link { target: "/e".into(), attrs: vec![(key.to_string(), AttrKind::Plain(v.to_string())), ("n".into(), AttrKind::U16(1)), (key.to_string(), AttrKind::Quoted(v.to_string()))] }];
+                c16_one(rep, &doc, v.len() % 2 == 0);
+                rep.count("extended_value_documents");
+            }
+        }
         // number-like texts and registry numbers under keys that usually hold numbers: the text written is the text read
         let mut di = 0u64;
         for (ki, key) in ["ct", "sz", "lt", "rt", "obs", "title", "k"].iter().enumerate() {
@@ -1003,6 +1012,18 @@ pub fn run_c18(ctx: &mut Ctx) {
         // (two newline settings per call and three styles: three calls cover every combination)
         for _ in 0..3 {
             c18_doc(rep, &doc, &mut stats, 1);
+        }
+        // keys ending in '*' with RFC 8187 extended values (and near misses), through every writer method
+        for key in ["title*", "rt*", "x*"] {
+            for v in EXT_VALUES {
+                let doc = vec![
+                    Link { target: "/sensors/temp".into(), attrs: vec![("rt".into(), AttrKind::Plain("temperature".into())), (key.to_string(), AttrKind::Plain(v.to_string())), ("sz".into(), AttrKind::U32(12))] },
+                    Link { target: "/sensors/light".into(), attrs: vec![(key.to_string(), AttrKind::Quoted(v.to_string())), ("if".into(), AttrKind::Quoted("sensor".into()))] },
+                ];
+                c18_doc(rep, &doc, &mut stats, 1);
+                rep.distinct(fnv(describe(&doc).as_bytes()));
+                rep.count("extended_value_documents");
+            }
         }
         // targets and keys with characters the format itself cannot carry (the writer does not
         // validate them; whatever it writes for them, faults are reported all the same)
